@@ -23,27 +23,27 @@ M = [
  ("M06", "C01", ["C01"], "lexical-parse-float/src/parse.rs", "    if n_digits <= step {", "    if n_digits < step + 2 {", "mantissas with 20 digits (one more than fits)"),
  ("M08", "C02", ["C02"], "lexical-write-float/src/algorithm.rs", "        if r == 0 && !include_right && is_z_integer {", "        if r == 0 && include_right && is_z_integer {",
   "floats whose right interval endpoint is an integer multiple"),
- ("M09", "C03", ["C03"], "lexical-write-integer/src/digit_count.rs", None, None, "one digit-count boundary for one radix"),
- ("M10", "C04", ["C04"], "lexical-parse-integer/src/algorithm.rs", "    let add = 0x46 + 10 - radix;\n    let add = add + (add << 8) + (add << 16) + (add << 24);\n    let add = add + (add << 32);",
-  None, "invalid byte ':' inside an 8-digit window, no_multi_digit = false"),
+ ("M09", "C03", ["C03"], "lexical-write-integer/src/digit_count.rs", "        while value >= radix {\n            digits += 1;", "        while value > radix {\n            digits += 1;", "exact odd powers of a generic radix: digit count one short"),
+ ("M10", "C04", ["C04"], "lexical-parse-integer/src/algorithm.rs", "    let add = 0x46 + 10 - radix;\n    let add = add + (add << 8) + (add << 16) + (add << 24);\n    let add = (add as u64) | ((add as u64) << 32);",
+  "    let add = 0x45 + 10 - radix;\n    let add = add + (add << 8) + (add << 16) + (add << 24);\n    let add = (add as u64) | ((add as u64) << 32);", "invalid byte ':' inside an 8-digit window, no_multi_digit = false"),
  ("M11", "C04", ["C04"], "lexical-parse-integer/src/algorithm.rs", "        into_error!(InvalidDigit, $index - 1)", "        into_error!(InvalidDigit, $index)", "any invalid digit: error index off by one"),
- ("M13", "C06", ["C06"], "lexical-write-float/src/binary.rs", None, None, "one residue class of the binary exponent"),
+ ("M13", "C06", ["C06"], "lexical-write-float/src/binary.rs", "        fast_ceildiv(neg_sci_exp, bits_per_digit).wrapping_neg()", "        (neg_sci_exp / bits_per_digit).wrapping_neg()", "negative scientific exponents not divisible by the bits per digit (radix 4, 8, 16, 32)"),
  ("M15", "C08", ["C08", "C14"], "lexical-write-float/src/shared.rs", "    } else if cfg!(feature = \"format\") && format.required_exponent_sign() {\n        bytes[*cursor] = b'+';",
   "    } else if cfg!(feature = \"format\") && format.required_exponent_sign() && exp == 0 {\n        bytes[*cursor] = b'+';", "formats with required_exponent_sign and a positive exponent"),
  ("M16", "C09", ["C09"], "lexical-write-float/src/options.rs", "            count += max!(exp, exponent_size);", "            count += max!(exp, exponent_size) - 1;", "buffers of exactly buffer_size_const with extreme options"),
- ("M17", "C10", ["C10"], "lexical-util/src/iterator.rs", None, None, "7-byte inputs ending at a guard page"),
- ("M18", "C11", ["C11"], "lexical-parse-float/src/parse.rs", "    if count == length {", "    if count >= length - (length > 0 && count + 1 == length) as usize {", "one trailing byte after an accepted float"),
+ ("M17", "C10", ["C10"], "lexical-util/src/iterator.rs", "        if Self::IS_CONTIGUOUS && self.as_slice().len() >= mem::size_of::<u64>() {", "        if Self::IS_CONTIGUOUS && self.as_slice().len() >= mem::size_of::<u64>() - 1 {", "7-byte inputs ending at a guard page"),
+ ("M18", "C11", ["C11"], "lexical-parse-float/src/parse.rs", "    if count == length {\n        Ok(float)", "    if count == length || (count + 1 == length && length > 3) {\n        Ok(float)", "one trailing byte after an accepted float"),
  ("M19", "C12", ["C12"], "lexical-parse-float/src/parse.rs", "        if format.required_exponent_digits() && byte.current_count() - before == 0 {", "        if format.required_exponent_digits() && byte.current_count() - before == 0 && !is_negative_exponent {",
   "`1e-` : exponent sign without digits"),
  ("M21", "C14", ["C14"], "lexical-write-float/src/shared.rs", "        let is_above = to_round[2..].iter().any(|&x| x != b'0');", "        let is_above = to_round[1..].iter().any(|&x| x != b'0');", "exact ties ...50 with an even digit before"),
- ("M22", "C15", ["C15"], "lexical-write-float/src/write.rs", None, None, "-NaN written with a sign"),
- ("M24", "C17", ["C17", "C09"], "lexical/src/lib.rs", None, None, "longest outputs through the facade"),
+ ("M22", "C15", ["C15"], "lexical-util/src/num.rs", "        self.is_sign_negative() && !self.is_nan()", "        self.is_sign_negative()", "-NaN written with a sign"),
+ ("M24", "C17", ["C17"], "lexical/src/lib.rs", "    let len = lexical_core::write(n, buf.as_mut_slice()).len();", "    let len = lexical_core::write(n, buf.as_mut_slice()).len().min(23);", "longest outputs through the facade"),
  ("M25", "C18", ["C18"], "lexical-util/src/feature_format.rs", "    } else if from_flag!(format, NO_SPECIAL) && from_flag!(format, CASE_SENSITIVE_SPECIAL) {\n        Error::InvalidSpecial\n    } else if from_flag!(format, NO_SPECIAL) && from_flag!(format, SPECIAL_DIGIT_SEPARATOR) {",
   "    } else if from_flag!(format, NO_SPECIAL) && from_flag!(format, SPECIAL_DIGIT_SEPARATOR) {", "the flag pair no_special + case_sensitive_special"),
- ("M26", "C19", ["C19"], "lexical-parse-float/src/lemire.rs", None, None, "lossy Lemire result far from the correct value for one decimal exponent"),
- ("M27", "C16", ["C16"], "lexical-write-integer/src/compact.rs", None, None, "compact integer writer differs for one digit value"),
- ("M28", "C13", ["C13"], "lexical-util/src/skip.rs", "            slc.get(prev).map_or(false, |&x| $self.is_digit(x)) &&\n            slc.get(next).map_or(false, |&x| $self.is_digit(x))\n    }};\n\n    (@first $self:ident) => {\n        is_i!(@first $self, $self.byte.index)",
-  "            slc.get(prev).map_or(false, |&x| $self.is_digit(x)) ||\n            slc.get(next).map_or(false, |&x| $self.is_digit(x))\n    }};\n\n    (@first $self:ident) => {\n        is_i!(@first $self, $self.byte.index)", "internal-only separator formats: leading/trailing separators accepted"),
+ ("M26", "C19", ["C19"], "lexical-parse-float/src/lemire.rs", "    let mut fp = compute_float::<F>(num.exponent, num.mantissa, lossy);\n    if !lossy", "    let mut fp = compute_float::<F>(num.exponent, num.mantissa, lossy);\n    if lossy && num.many_digits && fp.exp > 0 {\n        fp.mant &= !3;\n    }\n    if !lossy", "lossy results up to 3 ulp off for inputs with more than 19 digits"),
+ ("M27", "C16", ["C16", "C03"], "lexical-write-integer/src/compact.rs", "        while value >= radix {", "        while value > radix {", "compact integer writer: leading part equal to the radix written as one digit"),
+ ("M28", "C13", ["C13"], "lexical-util/src/skip.rs", "        slc.get(prev).map_or(false, |&x| $self.is_digit(x)) &&\n            slc.get(next).map_or(false, |&x| $self.is_digit(x))\n    }};\n\n    (@first $self:ident) => {\n        is_i!(@first $self, $self.byte.index)",
+  "        slc.get(prev).map_or(false, |&x| $self.is_digit(x)) ||\n            slc.get(next).map_or(false, |&x| $self.is_digit(x))\n    }};\n\n    (@first $self:ident) => {\n        is_i!(@first $self, $self.byte.index)", "internal-only separator formats: leading/trailing separators accepted"),
  ("M29", "C05", ["C05"], "lexical-parse-float/src/table_bellerophon_radix.rs", None, None, "one large-power mantissa of radix 7"),
  ("M30", "C07", ["C07"], "lexical-write-float/src/radix.rs", "                            if idx < format.radix() {", "                            if idx <= format.radix() {", "runs of the top digit in generic radices (reverts the carry fix)"),
 ]
@@ -118,7 +118,10 @@ def run_one(mid, prop, checks, path, old, new, needs):
 
 
 NEG_MODELS = [("MC_Pipeline.tla", "MC_Pipeline_fast_exp.cfg", "Correct"), ("MC_Pipeline.tla", "MC_Pipeline_err_scale.cfg", "Correct"),
-              ("MC_IntParse.tla", "MC_IntParse_bad.cfg", "StrategyIsExact")]
+              ("MC_IntParse.tla", "MC_IntParse_bad.cfg", "StrategyIsExact"),
+              ("MC_Bounds.tla", "MC_Bounds_bad.cfg", "Sufficient"),
+              ("MC_IntWrite.tla", "MC_IntWrite_count_gt.cfg", "InBounds"), ("MC_IntWrite.tla", "MC_IntWrite_no_pad.cfg", "FilledExactly"),
+              ("MC_IntWrite.tla", "MC_IntWrite_step_plus_1.cfg", "Canonical")]
 
 
 def negative_models():
